@@ -21,6 +21,7 @@ from __future__ import annotations
 import asyncio
 import hashlib
 import random
+import time
 import re
 import shutil
 import tempfile
@@ -421,6 +422,11 @@ class Live(Family):
             # not by making the server close a socket with unread input (the kernel then resets the connection and drops what it
             # had not sent yet)
             d["trail"] = rng.choice([0, 0, 0, 1, 70000, 1 << 20]) if thorough else 0
+            if mode == "factory" and (rng.random() < 0.15 if thorough else i == 0):
+                d["slow_handler"] = 31          # the handler completes 31 s (server clock) after the request: its response still arrives whole
+            if d["trail"] == 0 and sz >= 200000 and (rng.random() < 0.3 if thorough else i == 3):
+                d["late_line"] = True           # a stray line sent after the request, in a TLS record of its own, while the body is being sent
+                d["reader"] = "slow" if sz <= 4 * MIB else d["reader"]
             if thorough and rng.random() < 0.12:
                 # a client that stops reading for 31 s (on the server's clock) in the middle of the download
                 d.update({"reader": "stall", "sndbuf": rng.choice([4096, 16384]), "rcvbuf": rng.choice([2048, 8192]), "stalls": rng.choice([1, 3, 12])})
@@ -458,6 +464,13 @@ class Live(Family):
             def handler(req):
                 r = GeminiResponse(case["status"], case["meta"], body)
                 returned.append(r)
+                if case.get("slow_handler"):
+                    # the handler answers later (a coroutine): longer than the request timeout on the server's clock
+                    async def later():
+                        await asyncio.sleep(case["slow_handler"])
+                        return r
+
+                    return later()
                 return r
         obs: dict = {}
         try:
@@ -465,7 +478,15 @@ class Live(Family):
                 sink = tls_peer._Sink()
                 kw = {"mode": "start_server", "docroot": tmp, "supplied": case["supplied"]} if case["mode"] == "static" else {"mode": "factory", "handler": handler}
                 with tls_live.LiveServer(backend, sndbuf=case["sndbuf"], **kw) as srv:
-                    r = tls_live.tls_fetch(srv.port, url.encode() + b"\r\n" + b"T" * case.get("trail", 0), reader=case["reader"], rcvbuf=case["rcvbuf"],
+                    def after_request(sock, srv=srv):
+                        if case.get("late_line"):
+                            time.sleep(0.25)
+                            sock.sendall(b"stray line\r\n")          # a later TLS record, while the response is on its way
+                        if case.get("slow_handler"):
+                            time.sleep(0.25)
+                            srv.advance(case["slow_handler"] + 1)
+
+                    r = tls_live.tls_fetch(srv.port, url.encode() + b"\r\n" + b"T" * case.get("trail", 0), reader=case["reader"], rcvbuf=case["rcvbuf"], after_request=after_request,
                                            rng=random.Random(case["seed"]), sink=sink.add, timeout=120,
                                            stall=lambda: srv.advance(stall_seconds()), stalls=case.get("stalls", 1))
                     used = srv.used_backend
